@@ -74,7 +74,12 @@ def response_from(ns, r, marks=None):
     elif kind in ("PlainText", "HTML"):
         cls = ns.PlainTextResponse if kind == "PlainText" else ns.HTMLResponse
         extra = {k: r[k] for k in ("media_type", "charset") if r.get(k)}
-        resp = cls(r["content"], **kw, **extra)
+        content = r["content"]
+        if r.get("content_as") == "bytearray":
+            content = bytearray(content)
+        elif r.get("content_as") == "memoryview":
+            content = memoryview(content)
+        resp = cls(content, **kw, **extra)
     elif kind == "JSON":
         resp = ns.JSONResponse(r["content"], **kw, **r.get("json_kwargs", {}))
     elif kind == "Redirect":
@@ -104,6 +109,23 @@ def response_from(ns, r, marks=None):
         resp.headers[k] = v
     for k, v in r.get("append_headers", ()):
         resp.headers.append(k, v)
+    for op, k, v in r.get("refused_headers", ()):
+        try:
+            if op == "set":
+                resp.headers[k] = v
+            elif op == "append":
+                resp.headers.append(k, v)
+            elif op == "append-existing":
+                resp.headers["X-H"] = "0"
+                resp.headers.append(k, v)
+            elif op == "setdefault":
+                resp.headers.setdefault(k, v)
+            elif op == "update-pairs":
+                resp.headers.update([("X-First", "1"), (k, v)])
+            else:
+                resp.headers.update({"X-First": "1", k: v})
+        except ValueError:
+            pass
     return resp
 
 
@@ -283,6 +305,10 @@ def gen_response(rng, files=None, allow_sse=True, allow_raise=False):
         r["set_headers"] = [rng.choice([("X-Set", "1"), ("Vary", "Accept"), ("X-Latin", "\xe9")])]
     if rng.random() < 0.15:
         r["append_headers"] = [("Vary", "Cookie"), ("Vary", "Origin")]
+    if rng.random() < 0.08:
+        # text the header mapping must refuse at the point of mutation; whatever it does, nothing of it may be emitted raw
+        r["refused_headers"] = [(rng.choice(["set", "append", "append-existing", "setdefault", "update-pairs", "update-mapping"]),
+                                 rng.choice(["X-H", "X-H\r\nX-Injected"]), rng.choice(["1\r\nSet-Cookie: admin=1", "a\nb", "nul\x00", "ok"]))]
     return r
 
 
